@@ -21,25 +21,32 @@ pub mod atomic_shim {
     use super::*;
     pub struct AtomicBool { pub v: bool }
     impl AtomicBool {
+        pub fn vx_new(v: bool) -> (r: Self) ensures r.v == v { AtomicBool { v } }
         pub fn load(&self, o: std::sync::atomic::Ordering) -> (r: bool) ensures r == self.v { self.v }
         pub fn store(&mut self, x: bool, o: std::sync::atomic::Ordering) ensures final(self).v == x { self.v = x; }
         pub fn swap(&mut self, x: bool, o: std::sync::atomic::Ordering) -> (r: bool) ensures r == old(self).v, final(self).v == x { let r = self.v; self.v = x; r }
     }
     pub struct AtomicU8 { pub v: u8 }
     impl AtomicU8 {
+        pub fn vx_new(v: u8) -> (r: Self) ensures r.v == v { AtomicU8 { v } }
         pub fn load(&self, o: std::sync::atomic::Ordering) -> (r: u8) ensures r == self.v { self.v }
         pub fn store(&mut self, x: u8, o: std::sync::atomic::Ordering) ensures final(self).v == x { self.v = x; }
     }
-    pub struct AtomicU32 { pub v: u32 }
+    // `stores` counts plain stores: an id allocator must only ever be advanced by an atomic read-modify-write
+    pub struct AtomicU32 { pub v: u32, pub ghost stores: nat }
     impl AtomicU32 {
+        #[verifier::external_body]
+        pub fn vx_new(v: u32) -> (r: Self) ensures r.v == v, r.stores == 0 { unimplemented!() }
         pub fn load(&self, o: std::sync::atomic::Ordering) -> (r: u32) ensures r == self.v { self.v }
+        pub fn store(&mut self, x: u32, o: std::sync::atomic::Ordering) ensures final(self).v == x, final(self).stores == old(self).stores + 1 { self.v = x; proof { self.stores = self.stores + 1; } }
         #[verifier::external_body]
         pub fn fetch_add(&mut self, x: u32, o: std::sync::atomic::Ordering) -> (r: u32)
-            ensures r == old(self).v, final(self).v == old(self).v.wrapping_add(x)
+            ensures r == old(self).v, final(self).v == old(self).v.wrapping_add(x), final(self).stores == old(self).stores
         { let r = self.v; self.v = self.v.wrapping_add(x); r }
     }
     pub struct AtomicU64 { pub v: u64 }
     impl AtomicU64 {
+        pub fn vx_new(v: u64) -> (r: Self) ensures r.v == v { AtomicU64 { v } }
         pub fn load(&self, o: std::sync::atomic::Ordering) -> (r: u64) ensures r == self.v { self.v }
         pub fn store(&mut self, x: u64, o: std::sync::atomic::Ordering) ensures final(self).v == x { self.v = x; }
     }
@@ -103,8 +110,12 @@ pub mod crate_paths {
 }
 pub mod session { pub use super::StreamReader; pub use super::Stream; }
 
+#[verifier::external_body]
+pub fn vx_choice() -> (r: bool) { true }
+pub struct Notified;
 pub struct Notify { pub _p: () }
 impl Notify {
+    pub fn notified(&self) -> (r: Notified) { Notified }
     #[verifier::external_body]
     pub fn notify_waiters(&self, fx: &mut Ghost<Seq<Effect>>) ensures final(fx)@ == old(fx)@.push(Effect::NotifyWaiters) { }
 }
@@ -329,3 +340,7 @@ pub proof fn lemma_dispatch_prefix(dl0: Seq<FrameS>, disp: Seq<FrameS>, rest: Se
     assert(disp =~= all.subrange(0, disp.len() as int));
     if rest.len() == 0 { assert(disp =~= all); }
 }
+
+// everything a sequence of (stream id, chunk) items becomes on the write path, in order
+pub open spec fn psh_all(items: Seq<(u32, Seq<u8>)>) -> Seq<FrameS> decreases items.len()
+{ if items.len() == 0 { Seq::empty() } else { psh_all(items.drop_last()) + psh_frames(items.last().0, items.last().1) } }
